@@ -63,7 +63,9 @@ func VH_C06() {
 	const cTagged, cPlain = Level(40), Level(41)
 	_ = RegisterLevel(cTagged, "tagged", RegWithShortTags([MaxLengthShortTag]string{"", "T", "TG", "TGD", "TAGD", "TAGGD"}))
 	_ = RegisterLevel(cPlain, "plain")
-	sev := []Level{InfoLevel, ErrorLevel, cTagged, cPlain, Level(77)}[vChoose(5)]
+	const cSparse = Level(43) // short tags given for some widths only
+	_ = RegisterLevel(cSparse, "sparse", RegWithShortTags([MaxLengthShortTag]string{"", "", "", "SPR", "", "SPARS"}))
+	sev := []Level{InfoLevel, ErrorLevel, cTagged, cPlain, Level(77), cSparse}[vChoose(6)]
 	tw := 3
 	if vParam("widths", 0) == 1 {
 		tw = vChoose(5) + 1
@@ -84,6 +86,8 @@ func VH_C06() {
 		tag = []string{"", "T", "TG", "TGD", "TAGD", "TAGGD"}[tw]
 	case cPlain:
 		tag = vRightPad("plain", tw)[:tw]
+	case cSparse:
+		tag = []string{"", "s", "sp", "SPR", "spar", "SPARS"}[tw]
 	default:
 		tag = vRightPad("L#77", tw)[:tw]
 	}
